@@ -361,7 +361,8 @@ func (mi *muxInst) videoData(u wunit) [][]byte {
 			au = append(au, h265Params[p].vps, h265Params[p].sps, h265Params[p].pps)
 		}
 		if u.RA {
-			au = append(au, append([]byte{19 << 1, 0x01}, payloadTail(u, 0)...))
+			// every kind of random-access picture: IDR_W_RADL, IDR_N_LP, CRA_NUT
+			au = append(au, append([]byte{byte([3]int{19, 20, 21}[u.Seq%3]) << 1, 0x01}, payloadTail(u, 0)...))
 		} else {
 			au = append(au, append([]byte{1 << 1, 0x01}, payloadTail(u, 0)...))
 		}
